@@ -150,6 +150,12 @@ package signature
 //@   requires implements(keySet, jwk.Set) || implements(keySet, crypto.Signer)
 //@   assigns nothing
 //@   ensures [covers] ret == nil ==> len(s.SignedFields) > 0
+//@   ensures [sound] ret == nil ==> (exists ko any, p []byte, r map[string]any :: {jwsVerifiedWith(bytesOf(s.Value), ko, optDetached(p)), cpOf(p, s.Algorithm, r)}
+//@       jwsVerifiedWith(bytesOf(s.Value), ko, optDetached(p)) && cpOf(p, s.Algorithm, r) &&
+//@       (implements(keySet, jwk.Set) ==> ko == optKeySet(keySet)) &&
+//@       (forall f string :: {has(r, f)} has(r, f) <==> inFields(s.SignedFields, len(s.SignedFields), f)) &&
+//@       (typeis(sf, *CommandStepWithInvariants) && unbox(sf, *CommandStepWithInvariants) != nil ==>
+//@           allMandatory(s.SignedFields, len(s.SignedFields)) && stepValues(r, unbox(sf, *CommandStepWithInvariants))))
 //@   check [required-dom] ret == nil ==> (forall f string :: {has(required, f)} has(required, f) <==> inFields(s.SignedFields, len(s.SignedFields), f))
 //@   check [required-val] ret == nil ==> (forall f string :: {required[f]} has(required, f) ==> has(values, f) && required[f] == values[f])
 //@   check [payload] ret == nil ==> cpOf(payload, s.Algorithm, required)
